@@ -115,3 +115,19 @@ func specSameQuota(ue *chf_context.ChfUe, old map[int32]int64) bool {
 //@   ensures [C12] old(specUe(chargingData).Cdr[chargingSessionId]) == nil ==> forall k string :: specUe(chargingData).Cdr[k] == old(specUe(chargingData).Cdr[k])
 //@   ensures [C02 C10] result == nil ==> old(specUe(chargingData).Cdr[chargingSessionId]) != nil && old(specUe(chargingData).Cdr[chargingSessionId]).ChargingFunctionRecord.CauseForRecClosing.Value == 0
 //@   ensures [C02 C10] result == nil ==> len(old(specUe(chargingData).Cdr[chargingSessionId]).ChargingFunctionRecord.ListOfMultipleUnitUsage) == old(len(specUe(chargingData).Cdr[chargingSessionId].ChargingFunctionRecord.ListOfMultipleUnitUsage))+len(chargingData.MultipleUnitUsage)
+
+// Update: 200 with the echoed sequence number and a time stamp, or a 4xx problem; an unknown subscriber
+// or session has no effect; the usage goes to the record the session reference designates (or to the
+// partial record that continues it, which then is what the reference designates).
+//@ func (*Processor).ChargingDataUpdate [C09 C10 C11 C12]
+//@   entry
+//@   ensures (result0 != nil) == (result1 == nil)
+//@   ensures result1 != nil ==> result1.Status >= 400 && result1.Status < 500
+//@   ensures [C12] result0 != nil ==> result0.InvocationSequenceNumber == chargingData.InvocationSequenceNumber && result0.InvocationTimeStamp != nil
+//@   ensures old(specUe(chargingData).Cdr[chargingSessionId]) == nil ==> result1 != nil
+//@   ensures [C12] old(specUe(chargingData).Cdr[chargingSessionId]) == nil ==> abmf.GhostRequests == old(abmf.GhostRequests) && rating.GhostRequests == old(rating.GhostRequests) && len(specUe(chargingData).Records) == old(len(specUe(chargingData).Records))
+//@   ensures [C12] old(specUe(chargingData).Cdr[chargingSessionId]) == nil ==> forall rg int32 :: specUe(chargingData).ReservedQuota[rg] == old(specUe(chargingData).ReservedQuota[rg])
+//@   ensures [C12] old(specUe(chargingData).Cdr[chargingSessionId]) == nil ==> forall k string :: specUe(chargingData).Cdr[k] == old(specUe(chargingData).Cdr[k])
+//@   ensures [C10] result0 != nil ==> specUe(chargingData).Cdr[chargingSessionId] != nil && specUe(chargingData).Cdr[chargingSessionId].ChargingFunctionRecord != nil
+//@   ensures [C10 C02] forall k string :: k != chargingSessionId ==> specUe(chargingData).Cdr[k] == old(specUe(chargingData).Cdr[k])
+//@   assert "err := p.UpdateCDR(cdr, chargingData)": [C02 C10] cdr == ue.Cdr[chargingSessionId] && cdr != nil && cdr.ChargingFunctionRecord != nil
